@@ -19,6 +19,10 @@ package certchain
 //@   requires 0 <= cc.m.BootstrapEpoch && cc.m.BootstrapEpoch <= 4611686018427387903 && 0 <= cc.m.EC.Finality && cc.m.EC.Finality <= 4611686018427387903
 //@   modifies auto
 //@   maypanic
+//@   ensures[committee_is_derived_in_this_call_from_the_lookback_tipset] result1 == nil ==> result0 == res(getCommittee, 1, 0)
+//@        && res(getTipSetWithPowerTableByEpoch, 1, 1) == nil
+//@   at getCommittee 1
+//@     before[committee_built_from_the_lookback_tipset] arg(1) == res(getTipSetWithPowerTableByEpoch, 1, 0)
 //@   at getTipSetWithPowerTableByEpoch 1
 //@     before[initial_table_inside_the_lookback_window] instance < cc.m.InitialInstance + cc.m.CommitteeLookback ==>
 //@          arg(2) == cc.m.BootstrapEpoch - cc.m.EC.Finality
